@@ -52,7 +52,8 @@ func (c MCurveP) ScalarBaseMult(k []byte) (*big.Int, *big.Int) {
 func (c MCurveP) ScalarMult(x, y *big.Int, k []byte) (*big.Int, *big.Int) {
 	mustBig(x)
 	mustBig(y)
-	return newOpaque(vFresh("ec_sm_x", c.byteLen())), newOpaque(vFresh("ec_sm_y", c.byteLen()))
+	// a free group action: injective in the scalar bytes (and in the point)
+	return newOpaque(vUF("ec_sm_x_"+c.name, c.byteLen(), bigMag[x], bigMag[y], k)), newOpaque(vUF("ec_sm_y_"+c.name, c.byteLen(), bigMag[x], bigMag[y], k))
 }
 func (c MCurveP) Add(x1, y1, x2, y2 *big.Int) (*big.Int, *big.Int) {
 	mustBig(x1)
@@ -131,6 +132,14 @@ func BigMul(z, x, y *big.Int) *big.Int {
 func BigMod(z, x, y *big.Int) *big.Int {
 	mustBig(x)
 	mustBig(y)
+	// exact for given (non-opaque) operands with x < y: x mod y = x
+	if !bigOpaque[x] && !bigOpaque[y] && !bigNegative[x] && BigCmp(x, y) < 0 {
+		bigMag[z] = bigMag[x]
+		bigSet[z] = true
+		bigOpaque[z] = false
+		bigNegative[z] = false
+		return z
+	}
 	bigMag[z] = opaque2("mod", len(bigMag[y]), x, y)
 	bigSet[z] = true
 	bigOpaque[z] = true
@@ -198,6 +207,9 @@ func BigSignS(z *big.Int) int {
 		if zerosUsed < 1 && vFreshBool("big_iszero") {
 			zerosUsed++
 			return 0
+		}
+		if bigNegative[z] {
+			return -1
 		}
 		return 1
 	}
@@ -288,6 +300,7 @@ func GroupHashToField(u []big.Int, b []byte, e interface{}, order *big.Int, l ui
 		z := &u[i]
 		bigMag[z] = vUF("hash_to_field", len(bigMag[order]), b, dst, h, []byte{byte(l)}, bigMag[order])
 		bigSet[z] = true
+		bigOpaque[z] = true
 	}
 }
 
